@@ -329,6 +329,11 @@ func (u *Unmarshaler) generateMap(keyType, elemType reflect.Type, mapValue any) 
 		return reflect.ValueOf(mapValue), nil
 	}
 
+	// 文档里对象的键都是字符串，无法放进其他键类型的 map
+	if keyType != valueType.Key() {
+		return emptyValue, errTypeMismatch
+	}
+
 	refValue := reflect.ValueOf(mapValue)
 	targetValue := reflect.MakeMapWithSize(mapType, refValue.Len())
 	fieldElemKind := elemType.Kind()
